@@ -234,5 +234,18 @@ def rule_v6(repo):
     return res
 
 
+def rule_v7(repo):
+    """real_norm_conv normalises through convert_to_poly: under a coercion of_nat the argument is a natural
+    number term and must be normalised with the nat normaliser (truncated subtraction), or of_nat (2 - 3)
+    becomes -1 and equal terms get different normal forms (the rule of C05.T5, for the normalisers)."""
+    from .c05 import rule_t5
+    r = rule_t5(repo)
+    res = RuleResult('C10.V7', 'the polynomial normaliser hands the argument of a coercion to the normaliser of the source type', floor=1)
+    for i in r.instances:
+        if 'convert_to_poly' in i.key:
+            res.add(i.key, i.ok, i.detail, i.loc)
+    return res
+
+
 def rules(repo):
-    return [rule_v1(repo), rule_v2(repo), rule_v3(repo), rule_v4(repo), rule_v5(repo), rule_v6(repo)]
+    return [rule_v1(repo), rule_v2(repo), rule_v3(repo), rule_v4(repo), rule_v5(repo), rule_v6(repo), rule_v7(repo)]
